@@ -319,7 +319,7 @@ def check_dispatch(obs, prog):
     n = 0
     for nid in started | set(submits):
         mode = prog['nodes'][nid].get('mode')
-        exp = {'async': None, 'inline': None, 'process': 'process'}.get(mode, 'thread')
+        exp = {'async': None, 'async_tagged': None, 'inline': None, 'process': 'process'}.get(mode, 'thread')
         got = set(submits.get(nid, []))
         n += 1
         if exp is None and got:
@@ -398,7 +398,7 @@ def check_post_end(obs, ro):
                          end_step=ro.end_step))
         elif k == 'body_start':
             mode = obs.session.nodes[r['node']].get('mode')
-            if mode in ('async', 'inline'):
+            if mode in ('async', 'async_tagged', 'inline'):
                 out.append(F(['C13'], 'started_after_end', what=k, node=r['node'], step=r['step'],
                              end_step=ro.end_step))
     return out
@@ -467,7 +467,7 @@ def check_events(obs, ro, ref, prog, cancelled=False):
                 out.append(F(['C14'], 'missing_node_complete', node=n, after=prev['k'], then=k))
             last.pop(n, None)
         if k in ('body_ret', 'body_next', 'default_call') or (k == 'body_raise' and r.get('exc') != 'Fatal'):
-            if prog['nodes'].get(n, {}).get('mode') in ('async', 'inline'):
+            if prog['nodes'].get(n, {}).get('mode') in ('async', 'async_tagged', 'inline'):
                 last[n] = r
             continue
         if k == 'cb_node_complete':
